@@ -191,14 +191,14 @@ def xor_file(fname, key):
         raise Inconclusive("xor_file changed the size of %s" % fname)
 
 
-def write_index(path, pairs, write_buffer=4 << 20, sessions=1, compact=False, shuffle_rng=None, churn=None, older=(), ghosts=()):
+def write_index(path, pairs, write_buffer=4 << 20, sessions=1, compact=False, shuffle_rng=None, churn=None, older=(), ghosts=(), append=False):
     """churn (a seed): the database gets a HISTORY, as the index of a real node has one - a third of the keys are first written with an
     older value (a record is rewritten whenever the block's status changes: header only, then data, then validity raised), keys that do
     not belong to the final content are written and deleted again (some of them 'b' records of blocks that would win a height), spread
     over several sessions so that old versions, tombstones and final values sit in different tables / the log. The key/value CONTENT a
     reader sees is exactly `pairs`."""
-    if os.path.exists(path):
-        shutil.rmtree(path)
+    if os.path.exists(path) and not append:
+        shutil.rmtree(path)          # append=True: a later session of the node on the existing database
     pairs = list(pairs)
     if shuffle_rng is not None:
         shuffle_rng.shuffle(pairs)
